@@ -42,7 +42,7 @@ structure Work (L Z R : Type) where
   compute : Routine → List L → Z                         -- zone of the reference (compute_lzone / compute_izone)
   render : Z → List L                                     -- the lines `_write_zone` writes
   parse : List L → Except Err Z                           -- `read_zone`
-  check : Routine → List (List L) → Except Err Unit       -- chain / residue checks that may raise before further I/O
+  check : Routine → Nat → List (List L) → Except Err Unit -- chain / residue checks (stage 0, 1) that may raise before further I/O
   score : Routine → Option Z → List (List L) → Except Err R
   exportLines : Routine → Nat → List (List L) → List L    -- what is written to the n-th requested output
 
@@ -122,12 +122,15 @@ def export1 (W : Work L Z R) (r : Routine) (a : Args P) (obs : List (List L)) (r
   | some o => writeFile o (W.exportLines r 0 obs) (finish res)
   | none => finish res
 
-/-- reads, a check that may raise, more reads, the value -/
+/-- reads, a check that may raise (e.g. "chains differ"), more reads, a second check that may raise (e.g. residue
+    numbering with `enforce_residue_matching`), the value -/
 def checked (W : Work L Z R) (r : Routine) (z : Option Z) (first second : List (Rd P))
     (k : List (List L) → Except Err R → Prog P L R) : Prog P L R :=
-  readSeq first fun o1 => match W.check r o1 with
+  readSeq first fun o1 => match W.check r 0 o1 with
     | .error e => .fail e
-    | .ok _ => readSeq second fun o2 => k (o1 ++ o2) (W.score r z (o1 ++ o2))
+    | .ok _ => readSeq second fun o2 => match W.check r 1 (o1 ++ o2) with
+      | .error e => .fail e
+      | .ok _ => k (o1 ++ o2) (W.score r z (o1 ++ o2))
 
 /-- the effect program of each routine -/
 def prog (W : Work L Z R) (r : Routine) (a : Args P) : Prog P L R :=
